@@ -549,6 +549,9 @@ var $equal = (a, b, type) => {
         case $kindStruct:
             for (var i = 0; i < type.fields.length; i++) {
                 var f = type.fields[i];
+                if (f.name === "_") {
+                    continue; // Blank fields are ignored in comparisons.
+                }
                 if (!$equal(a[f.prop], b[f.prop], f.typ)) {
                     return false;
                 }
